@@ -1,6 +1,201 @@
 import PdeVerif.Json
+import PdeVerif.Model.Storage
 namespace PdeVerif.Drv.C20
-open Lean PdeVerif
+open Lean PdeVerif PdeVerif.Storage
 
-def handlers : List (String × Handler) := []
+/-! Driver of the storage model: replays an operation sequence on `Storage.step` (the definition
+the theorems of `Props/C20.lean` are about) at `K = Rat` and reports what is observable after
+every step. -/
+
+def optJ (j : Json) (k : String) : Option Json :=
+  match fldOpt j k with
+  | some .null | none => none
+  | some v => some v
+
+def optStr (j : Json) (k : String) : Except String (Option String) :=
+  match optJ j k with
+  | none => pure none
+  | some v => do pure (some (← getS v))
+
+def optQ (j : Json) (k : String) : Except String (Option Rat) :=
+  match optJ j k with
+  | none => pure none
+  | some v => do pure (some (← getQ v))
+
+def optI (j : Json) (k : String) : Except String (Option Int) :=
+  match optJ j k with
+  | none => pure none
+  | some v => do pure (some (← getI v))
+
+def optN (j : Json) (k : String) : Except String (Option Nat) :=
+  match optJ j k with
+  | none => pure none
+  | some v => do pure (some (← getN v))
+
+/-- optional boolean field, `true` when absent -/
+def optB (j : Json) (k : String) : Except String Bool :=
+  match optJ j k with
+  | none => pure true
+  | some v => getB v
+
+def parseMode (s : String) : Mode :=
+  match s with
+  | "truncate" => .truncate
+  | "truncate_once" => .truncateOnce
+  | "append" => .append
+  | "readonly" => .readonly
+  | _ => .other
+
+def showMode : Mode → String
+  | .truncate => "truncate"
+  | .truncateOnce => "truncate_once"
+  | .append => "append"
+  | .readonly => "readonly"
+  | .other => "other"
+
+def showErr : Err → String
+  | .runtime => "RuntimeError"
+  | .value => "ValueError"
+  | .index => "IndexError"
+  | .type => "TypeError"
+  | .key => "KeyError"
+  | .bad => "bad-request"
+
+def parseMember (j : Json) : Except String Member := do
+  pure { label := ← optStr j "label", cls := ← fldN j "cls", shape := ← fldNs j "shape",
+         ncomp := ← fldN j "ncomp" }
+
+def parseInfo (j : Json) : Except String FieldInfo := do
+  let ms ← getL parseMember (← fld j "members")
+  pure { grid := ← fldN j "grid", ncell := ← fldN j "ncell", shape := ← fldNs j "shape",
+         cls := ← fldN j "cls", label := ← optStr j "label", members := ms }
+
+def jOptStr : Option String → Json
+  | none => Json.null
+  | some s => Json.str s
+
+def jNs (l : List Nat) : Json := Json.arr (l.map (fun n => (toJson n : Json))).toArray
+
+def jMember (m : Member) : Json :=
+  Json.mkObj [("label", jOptStr m.label), ("cls", toJson m.cls), ("shape", jNs m.shape),
+              ("ncomp", toJson m.ncomp)]
+
+def jInfo (fi : FieldInfo) : Json :=
+  Json.mkObj [("grid", toJson fi.grid), ("ncell", toJson fi.ncell), ("shape", jNs fi.shape),
+              ("cls", toJson fi.cls), ("label", jOptStr fi.label),
+              ("members", Json.arr (fi.members.map jMember).toArray)]
+
+def parseFieldId (j : Json) (k : String) : Except String FieldId := do
+  match ← fld j k with
+  | .str s => pure (.name s)
+  | v => do pure (.idx (← getI v))
+
+def parseFunc (j : Json) : Except String (Func Rat) := do
+  match ← fldS j "kind" with
+  | "ident" => pure .ident
+  | "scale" => do pure (.scale (← fldQ j "c"))
+  | "addTime" => pure .addTime
+  | "member" => do pure (.member (← fldN j "i"))
+  | k => throw s!"unknown func {k}"
+
+def parseOp (j : Json) : Except String (Op Rat) := do
+  match ← fldS j "op" with
+  | "newField" => do pure (.newField (← parseInfo (← fld j "info")) (← fldQs j "vals"))
+  | "setField" => do pure (.setField (← fldN j "fid") (← fldQs j "vals"))
+  | "newStore" => do pure (.newStore (parseMode (← fldS j "mode")))
+  | "setMode" => do pure (.setMode (← fldN j "sid") (parseMode (← fldS j "mode")))
+  | "start" => do pure (.start (← fldN j "sid") (← fldN j "fid"))
+  | "append" => do pure (.append (← fldN j "sid") (← fldN j "fid") (← optQ j "t") (← optB j "cast"))
+  | "end" => do pure (.endW (← fldN j "sid"))
+  | "clear" => do pure (.clear (← fldN j "sid") (← fldB j "shape"))
+  | "read" => do pure (.read (← fldN j "sid") (← fldI j "i"))
+  | "items" => do pure (.items (← fldN j "sid"))
+  | "slice" => do pure (.slice (← fldN j "sid") (← optI j "a") (← optI j "b"))
+  | "extractTimeRange" => do
+    let r : TRange Rat ← (do
+      match ← fldS j "kind" with
+      | "all" => pure TRange.all
+      | "upto" => do pure (TRange.upto (← fldQ j "b"))
+      | "pair" => do pure (TRange.pair (← optQ j "a") (← optQ j "b"))
+      | k => throw s!"unknown range kind {k}")
+    pure (.extractTimeRange (← fldN j "sid") r)
+  | "extractField" => do
+    pure (.extractField (← fldN j "sid") (← parseFieldId j "field") (← optStr j "label"))
+  | "viewRead" => do pure (.viewRead (← fldN j "sid") (← parseFieldId j "field") (← fldI j "k"))
+  | "viewItems" => do pure (.viewItems (← fldN j "sid") (← parseFieldId j "field"))
+  | "apply" => do
+    pure (.apply (← fldN j "sid") (← parseFunc (← fld j "func")) (← optN j "out") (← optB j "cast"))
+  | "fromFields" => do
+    pure (.fromFields (← fldQs j "times") (← fldNs j "fids") (parseMode (← fldS j "mode")))
+  | "fromCollection" => do
+    pure (.fromCollection (← fldNs j "sids") (← optStr j "label") (← fldQ j "rtol") (← fldQ j "atol"))
+  | "poke" => do pure (.poke (← fldN j "sid") (← fldN j "i") (← fldQs j "vals"))
+  | k => throw s!"unknown op {k}"
+
+def jStore (w : World Rat) (s : Store Rat Nat) : Json :=
+  Json.mkObj [
+    ("times", jQs s.times),
+    ("frames", Json.arr (s.frames.map (fun id => jQs (w.deref id))).toArray),
+    ("ids", jNs s.frames),
+    ("mode", Json.str (showMode s.mode)),
+    ("shape", match s.dataShape with | none => Json.null | some sh => jNs sh),
+    ("dtype", Json.bool s.dtypeSet),
+    ("grid", match s.grid with | none => Json.null | some g => toJson g),
+    ("tmpl", match s.template with | none => Json.null | some fi => jInfo fi)]
+
+def jField (w : World Rat) (p : FieldInfo × Nat) : Json :=
+  Json.mkObj [("buf", toJson p.2), ("vals", jQs (w.deref p.2))]
+
+def jObs : Obs Rat → Json
+  | .unit => Json.null
+  | .field fi v => Json.mkObj [("field", Json.mkObj [("info", jInfo fi), ("vals", jQs v)])]
+  | .fields l => Json.mkObj [("fields",
+      Json.arr (l.map (fun r => Json.mkObj [("info", jInfo r.1), ("vals", jQs r.2)])).toArray)]
+  | .items l => Json.mkObj [("items",
+      Json.arr (l.map (fun r =>
+        Json.mkObj [("t", jQ r.1), ("info", jInfo r.2.1), ("vals", jQs r.2.2)])).toArray)]
+  | .store sid => Json.mkObj [("store", toJson sid)]
+
+/-- dumps of all storages / all live fields -/
+def dumpStores (w : World Rat) : List Json := w.stores.map (jStore w)
+def dumpFields (w : World Rat) : List Json := w.fields.map (jField w)
+
+/-- entries of `new` that differ from the entry at the same position of `old` (or are new) -/
+def changed (old new : List Json) : List Json :=
+  (new.zipIdx.filterMap (fun p =>
+    match old[p.2]? with
+    | some o => if o.compress == p.1.compress then none else some (Json.arr #[toJson p.2, p.1])
+    | none => some (Json.arr #[toJson p.2, p.1])))
+
+/-- {"ops":[...]} -> one record per step: error class, returned observation, and the dumps of
+every storage and live field whose observable state changed in this step -/
+def replay (j : Json) : Except String Json := do
+  let ops ← getL parseOp (← fld j "ops")
+  let mut w : World Rat := World.empty
+  let mut out : Array Json := #[]
+  let mut ds : List Json := []
+  let mut df : List Json := []
+  for op in ops do
+    let (w', r) := step w op
+    let ds' := dumpStores w'
+    let df' := dumpFields w'
+    let rec_ := Json.mkObj [
+      ("err", match r with | .error e => Json.str (showErr e) | .ok _ => Json.null),
+      ("obs", match r with | .error _ => Json.null | .ok o => jObs o),
+      ("stores", Json.arr (changed ds ds').toArray),
+      ("fields", Json.arr (changed df df').toArray),
+      ("ns", toJson w'.stores.length), ("nf", toJson w'.fields.length)]
+    out := out.push rec_
+    w := w'
+    ds := ds'
+    df := df'
+  pure (Json.arr out)
+
+/-- searchsorted of the model alone (used by a direct comparison with numpy) -/
+def bisect (j : Json) : Except String Json := do
+  let ts ← fldQs j "times"
+  let x ← fldQ j "x"
+  pure (Json.arr #[toJson (bisectLeft ts x), toJson (bisectRight ts x)])
+
+def handlers : List (String × Handler) := [("c20.replay", replay), ("c20.bisect", bisect)]
 end PdeVerif.Drv.C20
